@@ -20,7 +20,8 @@ RULE = ("Hypothesis-generated stores (0-12 objects of the 7 stored types, 2-3 ow
         "information, KMIP 1.0-2.0, conjunctions of 0-4 filters over the 13 attributes of the "
         "statement with values biased to the store, 1-3 Initial Date values, offset/maximum in "
         "{absent, 0..n+1, -1}, page walks); between the 3-6 Locates on one engine the store changes "
-        "(a new object registered, a state change, a destroy) in a third of the gaps.  One evaluation = one (store, request) pair: the "
+        "(a new object registered, a state change, a destroy) in a third of the gaps, and a sixth of "
+        "the requests are ONE batch [Locate, Register, Locate] judged before / after the new object.  One evaluation = one (store, request) pair: the "
         "unpaged Locate twice, then every page.  non-trivial = at least one filter and the model "
         "result is neither empty nor the whole permitted set, or a page cuts a non-empty list; "
         "per-attribute counters nt_filter/<attr> (attr present in a filter-non-trivial request) "
@@ -343,6 +344,11 @@ def gen_case(draw):
                 if kind == "state":
                     step["to"] = draw(st.sampled_from(["ACTIVE", "DEACTIVATED", "COMPROMISED"]))
                 out.append(step)
+        if draw(st.integers(0, 5)) == 0:
+            o = draw(gen_object(users, pnames, False))
+            r = dict(r, batch={"obj": o})
+            r.pop("pages", None)
+            r.pop("walk", None)
         out.append(r)
     return {"pols": pols, "objs": objs, "reqs": out}
 
@@ -414,6 +420,18 @@ def _register_item(o, i):
     return {"op": "Register", "obj": _obj_payload(o, i), "attrs": attrs}
 
 
+def _model_of(o, uid, date):
+    return {"uid": uid, "date": date, "t": o["t"],
+            "owner": None if o.get("orphan") else o["owner"],
+            "pol": o.get("pol") or "default",
+            "names": [tuple(x) for x in o.get("names", [])],
+            "grps": list(o.get("grps", [])), "asi": [tuple(a) for a in o.get("asi", [])],
+            "mask": (o.get("mask") or 0) if o["t"] in F.HAS_MASK else None,
+            "sens": bool(o.get("sens")), "alg": o.get("alg") if o["t"] in HAS_ALG else None,
+            "len": o.get("len") if o["t"] in HAS_ALG else None,
+            "ctype": "X_509" if o["t"] == "Certificate" else None, "state": None, "gone": False}
+
+
 def _add_object(srv, spec, o, i):
     """Register object spec o (number i) as its owner, drive it to its state; -> model object."""
     cli = H.Client(srv, o["owner"], None, (1, 4))
@@ -426,15 +444,7 @@ def _add_object(srv, spec, o, i):
     r = cli.one(_register_item(o, i), tick=False)
     if r["status"] != "SUCCESS":
         raise core.HarnessError("C14 store: Register failed: %r for %r" % (r, o))
-    m = {"uid": r["payload"]["uid"], "date": int(H.CLOCK.now), "t": o["t"],
-         "owner": None if o.get("orphan") else o["owner"],
-         "pol": o.get("pol") or "default",
-         "names": [tuple(x) for x in o.get("names", [])],
-         "grps": list(o.get("grps", [])), "asi": [tuple(a) for a in o.get("asi", [])],
-         "mask": (o.get("mask") or 0) if o["t"] in F.HAS_MASK else None,
-         "sens": bool(o.get("sens")), "alg": o.get("alg") if o["t"] in HAS_ALG else None,
-         "len": o.get("len") if o["t"] in HAS_ALG else None,
-         "ctype": "X_509" if o["t"] == "Certificate" else None, "state": None}
+    m = _model_of(o, r["payload"]["uid"], int(H.CLOCK.now))
     if o["t"] != "OpaqueData":
         st_ = o.get("state", "PRE_ACTIVE")
         if not _activatable(o, spec.get("pols", {})):
@@ -816,6 +826,77 @@ def judge_request(srv, pols, model, req):
     return out
 
 
+def judge_batch(srv, spec, model, ospecs, req):
+    """ONE request [Locate(f), Register(new object), Locate(f)] by one requester: the first Locate
+    is judged against the store before, the second against the store with the new object (which
+    is the newest: if it matches it leads the list).  The model gains the object."""
+    out = {"buckets": [], "nontrivial": False, "classes": ["batch:locate-register-locate"],
+           "excluded": [], "bumps": []}
+    B = out["buckets"]
+    pols = spec.get("pols", {})
+    who, groups, v = req["who"], req.get("groups"), tuple(req.get("v", (1, 2)))
+    filters = resolve_filters(req.get("f", []), model)
+    if any(f[0] == "Initial Date" for f in filters) or conflicting_singletons(filters):
+        out["classes"].append("excluded:batch-with-date-or-conflicting-filters")
+        return out
+    o = dict(req["batch"]["obj"], owner=who, orphan=False, gone=False, state="PRE_ACTIVE")
+    cli = H.Client(srv, who, groups, v)
+    loc = {"op": "Locate", "attrs": [list(f) for f in filters]}
+    try:
+        r = cli.request([dict(loc), _register_item(o, len(ospecs)), dict(loc)], cont="CONTINUE")
+    except Exception as e:
+        out["excluded"].append("batch not expressible by the library codec (%s)" % type(e).__name__)
+        return out
+    items = r["items"]
+    if items is None or len(items) != 3:
+        out["excluded"].append("batch refused before the handlers ran (judged by C02/C08/C13)")
+        return out
+    l1, reg, l2 = items
+    if reg["status"] == "SUCCESS":
+        m = _model_of(o, reg["payload"]["uid"], int(H.CLOCK.now))
+        m["state"] = None if o["t"] == "OpaqueData" else "PRE_ACTIVE"
+    else:
+        m = None
+        out["classes"].append("batch:register-refused")
+    before = list(model)
+    if m is not None:
+        model.append(m)
+        ospecs.append(o)
+    for which, res, mod in (("first", l1, before), ("second", l2, list(model))):
+        if res["status"] != "SUCCESS":
+            if res["reason"] == "GENERAL_FAILURE":
+                out["excluded"].append("Locate in a batch answered General Failure (judged by C13)")
+            else:
+                B.append(("C14|batch|locate-failed|%s" % res["reason"], "%s Locate of %r: %r"
+                          % (which, req, res["message"])))
+            continue
+        got = _uids(res)
+        must, may = model_sets(pols, mod, who, groups, filters)
+        if not _fits(set(got), must, may):
+            variants = [fl for fl, attr in (("nametype", "Name"), ("sens", "Sensitive"))
+                        if attr in [f[0] for f in filters]]
+            known = False
+            for k in range(1, len(variants) + 1):
+                for combo in itertools.combinations(variants, k):
+                    m2, y2 = model_sets(pols, mod, who, groups, filters, combo)
+                    if _fits(set(got), m2, y2):
+                        known = True
+                        B.extend((KNOWN_FLAGS[fl], "in a batch: %r" % (req,)) for fl in combo)
+            if not known:
+                B.append(("C14|batch|%s-locate-is-not-the-model-set" % which,
+                          "request %r: %s Locate of [Locate, Register, Locate] -> %r; model must=%r "
+                          "may=%r (the Register %s)" % (req, which, got, sorted(must), sorted(may),
+                                                        "created %s" % m["uid"] if m else "failed")))
+        by_uid = dict((x["uid"], x) for x in mod)
+        ds = [by_uid[u]["date"] for u in got if u in by_uid]
+        if any(a < b for a, b in zip(ds, ds[1:])):
+            B.append(("C14|order|not-newest-first", "batch %r -> %r with dates %r" % (req, got, ds)))
+        if which == "second" and m is not None and m["uid"] in must:
+            out["nontrivial"] = True
+            out["classes"].append("nt:new-object-must-appear-in-second-locate")
+    return out
+
+
 KNOWN_FLAGS = {
     "sens": "C14|filter|Sensitive|never-matches",
     "nametype": "C14|filter|Name|stored-name-type-ignored",
@@ -953,7 +1034,11 @@ def run_case(spec):
             if "mut" in req:
                 mutated = apply_mutation(srv, spec, model, ospecs, req) or mutated
                 continue
-            out = judge_request(srv, spec.get("pols", {}), model, req)
+            if "batch" in req:
+                out = judge_batch(srv, spec, model, ospecs, req)
+                mutated = True
+            else:
+                out = judge_request(srv, spec.get("pols", {}), model, req)
             if mutated:
                 out["classes"].append("store-changed-between-locates")
             ts = sorted(set(m["t"] for m in model))
